@@ -150,6 +150,31 @@ Theorem c14_subscription_routing :
 Proof. exact subscription_routing. Qed.
 Print Assumptions c14_subscription_routing.
 
+(* the class tree of supervisor/events.py realises the documented name tree
+   (EVENT above everything, NAME above NAME_SUFFIX): a class moved elsewhere breaks this *)
+Theorem c14_class_tree_matches_names : tree_match_b = true.
+Proof. exact class_tree_matches_names. Qed.
+Print Assumptions c14_class_tree_matches_names.
+
+(* so a pool listing valid names receives type n exactly once iff n or a name above it is listed *)
+Theorem c14_subscription_by_names :
+  forall names n,
+  Forall (fun l => In l event_type_names) names -> In n event_type_names ->
+  exists cn, class_of_name n = Some cn /\
+             deliveries (somes (map class_of_name names)) cn = doc_deliveries names n.
+Proof. exact subscription_by_names. Qed.
+Print Assumptions c14_subscription_by_names.
+
+(* booleans / autorestart: exactly the documented spellings, in any case *)
+Theorem c14_boolean_spellings :
+  forallb (is_ok_bool true) documented_truthy = true /\ forallb (is_ok_bool false) documented_falsy = true /\
+  forallb (fun s => match conv_boolean (GStr s) with Err EBool => true | _ => false end) not_booleans = true /\
+  forallb (is_ok_ar ARAlways) documented_truthy = true /\ forallb (is_ok_ar ARNever) documented_falsy = true /\
+  forallb (is_ok_ar ARUnexpected) ["unexpected"; "UNEXPECTED"; "Unexpected"] = true /\
+  forallb (fun s => match conv_autorestart (GStr s) with Err EAutorestart => true | _ => false end) not_booleans = true.
+Proof. exact boolean_spellings. Qed.
+Print Assumptions c14_boolean_spellings.
+
 Theorem c14_event_names_are_classes :
   forallb (fun n => match class_of_name n with Some _ => true | None => false end) event_type_names = true /\
   List.length event_type_names = List.length event_types_table.
